@@ -4,7 +4,8 @@ from __future__ import annotations
 
 from .. import terms as tm
 from ..model import AnalysisError
-from .common import ob, need, call_name, roles, swap_roles, role_of, lit, is_lit
+from .common import ob, need, call_name, roles, swap_roles, role_of, lit, is_lit, resolve_ite_free
+from .. import symeval
 from ..constfold import table
 
 PROP = "C11"
@@ -454,6 +455,40 @@ def rule_encodepure(ctx):
         yield o
 
 
+def rule_encodeall(ctx):
+    """encode_many encodes *every* label with encode() (directly or through its per-call cache of encode() results):
+    no label is special-cased on the way, so X keeps its all-ones placeholder bitmap and N its empty one, which is
+    what the ignore masks of the comparison functions test."""
+    R = "C11.ENCODEALL"
+    f = ctx.program.func("chord.encode_many", R)
+    s = ctx.S.get(f.qual)
+    outs = {}
+    for m in s.by_kind("mutate"):
+        if m.how == "setitem" and m.root in ("roots", "semitones", "basses") or (m.how == "setitem" and m.key is not None and m.key.op == "idx"):
+            outs.setdefault(m.root, []).append(m)
+    need(len(outs) >= 3, R, "encode_many: the three output stores were not found")
+    for root, ms in sorted(outs.items()):
+        for k, m in enumerate(ms):
+            v0 = m.val.a[0] if m.val.op == "sub" else m.val
+            alts = resolve_ite_free(v0)
+            good = bool(alts)
+            for a in alts:
+                # component of encode(label, reduce) or of a cache lookup whose entries are such results
+                base = a.a[0] if a.op == "sub" else a
+                is_enc = base.op == "call" and call_name(base) == "chord.encode" and base.a[1] and base.a[1][0].op == "iter"
+                is_cache = base.op == "call" and call_name(base) in (".get",) or (base.op == "sub" and base.a[0].op in ("loopvar", "loop"))
+                good = good and (is_enc or is_cache)
+            conds = [tm.show(c, 2) for c, _ in symeval.pc_conds(m.pc)]
+            good = good and not conds
+            yield ob(R, f, "chord.encode_many:%s@%d" % (root, k), good, "output %s[i] is a component of encode(label) for every label" % root if good else "output %s[i] is written as %s%s: some labels bypass encode()" % (root, tm.show(m.val, 3), (" under " + "; ".join(conds)) if conds else ""), node=m.node)
+    # the cache only ever holds encode() results
+    for m in s.by_kind("mutate"):
+        if m.how == "setitem" and m.root not in outs:
+            v = m.val
+            good = v.op == "call" and call_name(v) == "chord.encode"
+            yield ob(R, f, "chord.encode_many:cache-store", good, "the per-call cache stores encode(label, reduce_extended_chords)", node=m.node)
+
+
 RULES = [
     ("C11.ENCODEPURE", 9, rule_encodepure),
     ("C11.CONJ", 36, rule_conj),
@@ -463,4 +498,5 @@ RULES = [
     ("C11.VOCAB", 6, rule_vocab),
     ("C11.REFLEX", 10, rule_reflex),
     ("C11.MIREXCONST", 6, rule_mirexconst),
+    ("C11.ENCODEALL", 4, rule_encodeall),
 ]
